@@ -134,12 +134,17 @@ def gen_bad(rng, npix, nin):
     return ['bad', variant, data, dyadic(rng, 0.25, 4, 2), float(rng.choice([1.0, 0.5, 2.0]))]
 
 
+FIELD_SPECS = ['field', 'field-equal', 'field-other']
 PARAMS = ['flat_field', 'dark_current_rate', 'read_noise', 'include_photon_noise']
 
 
 def gen_param(rng, param, npix, off):
     """a value for a public noise parameter of NoisyDetector, in one of its spellings"""
     sp = str(rng.choice(['scalar', 'scalar', 'array', 'field']))
+    if sp == 'field':
+        # a map given as a Field: on the detector grid object itself, on an equal grid that is another object (with other weights),
+        # or on a different grid with the same number of points (C17-11: Field arithmetic takes the grid of its first operand)
+        sp = str(rng.choice(FIELD_SPECS))
     if param == 'include_photon_noise':
         return ['bool', not off]
     if param == 'flat_field':
@@ -150,8 +155,6 @@ def gen_param(rng, param, npix, off):
         if sp == 'scalar':
             return ['scalar', (0 if rng.random() < 0.5 else 0.0) if off else dyadic(rng, 0.125, 4, 3)]
         return [sp, [0.0] * npix if off else [dyadic(rng, 0, 4, 3) for _ in range(npix)]]
-    if sp == 'field':
-        sp = 'array'
     if sp == 'scalar':
         return ['scalar', 0 if off else dyadic(rng, 0.125, 2, 3)]
     return [sp, [0.0] * npix if off else [dyadic(rng, 0.125, 2, 3) for _ in range(npix)]]
@@ -332,7 +335,28 @@ def param_value(spec, grid):
         return spec[1]
     if spec[0] == 'field':
         return hcipy.Field(np.array(spec[1], dtype=float), grid)
+    if spec[0] == 'field-equal':
+        return hcipy.Field(np.array(spec[1], dtype=float), equal_grid(grid))
+    if spec[0] == 'field-other':
+        return hcipy.Field(np.array(spec[1], dtype=float), grid.scaled(3.0).shifted(np.ones(grid.ndim)))
     return np.array(spec[1], dtype=float)
+
+
+def equal_grid(grid):
+    """a grid that compares equal to `grid` (same coordinates) but is another object with other weights"""
+    g2 = grid.copy()
+    g2.weights = np.asarray(grid.weights, dtype=float) * 2.0 + np.zeros(grid.size)
+    return g2
+
+
+def on_det_grid(gr, grid):
+    """'the image lives on the detector grid': the grid object itself, or one that cannot be told from it (coordinates and weights)"""
+    if gr is grid:
+        return True
+    try:
+        return bool(gr == grid) and np.array_equal(np.asarray(gr.weights, dtype=float) + np.zeros(grid.size), np.asarray(grid.weights, dtype=float) + np.zeros(grid.size))
+    except Exception:  # noqa
+        return False
 
 
 def make_input(det, ik, data):
@@ -423,6 +447,10 @@ def run_real(case):
 
     def note_param(prm, spec, o):
         """book-keeping (and model line) for a parameter that has just been given to the detector"""
+        if prm != 'include_photon_noise':
+            # the grid the map carries (model `ntStep`): none for scalars / arrays, the detector grid object, another grid object
+            model.append('C17 ntset %s %s' % ({'read_noise': 'sigma', 'dark_current_rate': 'dark', 'flat_field': 'flat'}[prm],
+                                              {'field': 'detector', 'field-equal': 'foreign', 'field-other': 'foreign'}.get(spec[0], 'none')))
         if prm == 'include_photon_noise':
             cfg['photon'] = bool(spec[1])
             model.append('C17 set photon %d' % (1 if spec[1] else 0))
@@ -472,7 +500,7 @@ def run_real(case):
 
     def grid_label(im):
         gr = getattr(im, 'grid', None)
-        if gr is not None and (gr is grid or gr == grid):
+        if gr is not None and on_det_grid(gr, grid):
             return 'detector'
         if gr is not None and (gr is det.input_grid or gr == det.input_grid):
             return 'input'
@@ -518,7 +546,7 @@ def run_real(case):
         if arr.shape != (npix,):
             key = 'noiseless-subsampling-grid' if (case['kind'] == 'noiseless' and s > 1) else 'readout-shape'
             o['bad'].append((key, 'read-out image has shape %r, the detector grid has %d pixels (subsampling %d)' % (arr.shape, npix, s)))
-        elif gr is None or not (gr is grid or gr == grid):
+        elif gr is None or not on_det_grid(gr, grid):
             key = 'plain-array-power' if (plain and gr is None) else 'readout-grid'
             o['bad'].append((key, 'read-out image does not live on the detector grid (grid attribute: %s)' % (type(gr).__name__,)))
         else:
@@ -581,6 +609,8 @@ def run_real(case):
             do_read(o)
             if 'got' in o and not o['bad']:
                 rline(o, 'C17 tread', 'exact', 'ok ' + grid_label(images[-1][0]))
+                if case['kind'] != 'noiseless':
+                    rline(o, 'C17 ntread', 'exact', 'ok ' + grid_label(images[-1][0]))
             if refm and 'got' in o and not o['bad']:
                 rline(o, 'C17 rread', 'read', o['got'])
                 img_handle.append(len(handles))
@@ -593,6 +623,8 @@ def run_real(case):
                 o['model_int_idx'] = len(model) - 1
             if 'power' in o and o['status'] == 'ok':
                 rline(o, 'C17 tint %s' % ('foreign' if ik == 'foreignfield' else 'plain' if ik in ('plain', 'list') else 'input'), 'ok')
+                if case['kind'] != 'noiseless':
+                    rline(o, 'C17 ntint %s' % ('foreign' if ik == 'foreignfield' else 'plain' if ik in ('plain', 'list') else 'input'), 'ok')
             if refm and 'power' in o and o['status'] == 'ok':
                 rline(o, 'C17 ralloc %s' % rat_list(o['power']), 'ok')
                 rline(o, 'C17 rint %d %s %s' % (len(handles), rat(dt), rat(w)), 'ok')
@@ -604,6 +636,8 @@ def run_real(case):
                 do_read(o)
                 if 'got' in o and not o['bad']:
                     rline(o, 'C17 tread', 'exact', 'ok ' + grid_label(images[-1][0]))
+                    if case['kind'] != 'noiseless':
+                        rline(o, 'C17 ntread', 'exact', 'ok ' + grid_label(images[-1][0]))
                 if refm and 'got' in o and not o['bad']:
                     rline(o, 'C17 rread', 'read', o['got'])
                     img_handle.append(len(handles))
@@ -793,7 +827,7 @@ def run_per_axis(case):
     for name, img, ref in [('read-out', im, want), ('read-out with nothing integrated', empty, [Fraction(0)] * npix)]:
         arr = np.asarray(img, dtype=float)
         gr = getattr(img, 'grid', None)
-        if arr.shape != (npix,) or gr is None or not (gr is grid or gr == grid):
+        if arr.shape != (npix,) or gr is None or not on_det_grid(gr, grid):
             bad.append(('readout-grid', '%s of a detector with subsampling %r has shape %r / does not live on the detector grid' % (name, ss, arr.shape)))
         elif max([abs(float(x) - float(y)) for x, y in zip(arr, ref)] + [0.0]) > TOL * max([1.0] + [abs(float(y)) for y in ref]):
             bad.append(('readout-value', '%s of a detector with per-axis subsampling %r differs from the sum of power*dt*weight over the %r boxes' % (name, ss, ss)))
@@ -1004,7 +1038,7 @@ def run_rng_case(case):
             arr = np.asarray(im, dtype=float)
             gr = getattr(im, 'grid', None)
             scale = max([1.0] + [abs(float(x)) for x in want])
-            if arr.shape != (npix,) or gr is None or not (gr is grid or gr == grid):
+            if arr.shape != (npix,) or gr is None or not on_det_grid(gr, grid):
                 bad.append(('readout-grid', 'noisy read-out has shape %r / does not live on the detector grid' % (arr.shape,)))
                 break
             if max([abs(float(a) - float(b)) for a, b in zip(arr, want)] + [0.0]) > TOL * scale:
@@ -1132,7 +1166,7 @@ def run_polar(case):
                             'read-out %d has shape %r, expected %r (%d pending integrations; polarised exposures earlier in the life of the detector: %d)'
                             % (k, arr.shape, shape, len(pending), sum(1 for o in case['ops'][:k] if o[0] == 'pol'))))
                 break
-            if gr is None or not (gr is grid or gr == grid):
+            if gr is None or not on_det_grid(gr, grid):
                 bad.append(('readout-grid', 'read-out %d does not live on the detector grid' % k))
                 break
             got = arr.reshape(ncomp, npix)
@@ -1166,6 +1200,233 @@ def run_polar(case):
                 bad.append(('integrate-raises', 'integrate(%s) raised %s: %s' % ('polarised wavefront' if op[0] == 'pol' else 'scalar power', type(e).__name__, str(e)[:100])))
                 break
     return bad, lines, cmps
+
+
+# ---------------------------------------------------------------------------------------------
+# family `reint` (C17-10): one and the same Wavefront object integrated, edited IN PLACE, integrated again.  The expected
+# charge is recomputed from the current contents of the object (|E|^2 * grid.weights in Fractions), never from wf.power.
+
+EDIT_KINDS = ['item', 'mask', 'imag', 'buffer', 'weights', 'setgrid', 'imul', 'setfield', 'total_power', 'real', 'slice']
+IN_PLACE_EDITS = ('item', 'mask', 'imag', 'buffer', 'weights', 'setgrid', 'real', 'slice')     # do not go through the electric_field setter
+
+
+def gen_reint(rng, big):
+    ndim = 1 if rng.random() < 0.25 else 2
+    dims = [int(rng.integers(1, 4)) for _ in range(ndim)]
+    case = {'fam': 'reint', 'dims': dims, 'delta': [float(rng.choice([0.5, 1.0, 2.0])) for _ in range(ndim)],
+            'cls': str(rng.choice(['noiseless', 'noisy-off'])), 'twin': bool(rng.random() < 0.4)}
+    if rng.random() < 0.3:
+        case['ss'] = [int(rng.integers(1, 4)) for _ in range(ndim)]
+        case['spell'] = 'array'
+        case['s'] = max(case['ss'])
+    else:
+        case['s'] = int(rng.choice([1, 1, 2, 3]))
+    nin = int(np.prod([d * f for d, f in zip(dims, factors(case))]))
+    nwf = 1 if rng.random() < 0.6 else 2
+
+    def cvals():
+        return [[dyadic(rng, -2, 2, 2) for _ in range(nin)] for _ in range(2)]
+
+    def wts():
+        return [dyadic(rng, 0.25, 4, 2) for _ in range(nin)]
+    case['wfs'] = [{'e': cvals(), 'own': bool(rng.random() < 0.6), 'c64': bool(rng.random() < 0.15),
+                    'grid': str(rng.choice(['copy', 'copy', 'input']))} for _ in range(nwf)]
+
+    def edit(j):
+        kinds = [k for k in EDIT_KINDS if case['wfs'][j]['grid'] == 'copy' or k not in ('weights', 'setgrid')]
+        kind = str(rng.choice(kinds))
+        idx = sorted(set(int(i) for i in rng.integers(0, nin, size=int(rng.integers(1, nin + 1)))))
+        if kind in ('item', 'buffer'):
+            return ['edit', j, kind, idx, [[dyadic(rng, -2, 2, 2) for _ in idx] for _ in range(2)]]
+        if kind == 'mask':
+            return ['edit', j, kind, idx]
+        if kind in ('imag', 'real'):
+            return ['edit', j, kind, [dyadic(rng, -2, 2, 2) for _ in range(nin)]]
+        if kind == 'slice':
+            return ['edit', j, kind, int(rng.integers(0, nin)), [dyadic(rng, -2, 2, 2), dyadic(rng, -2, 2, 2)]]
+        if kind in ('weights', 'setgrid'):
+            return ['edit', j, kind, wts()]
+        if kind == 'imul':
+            return ['edit', j, kind, float(rng.choice([0.5, 2.0, -1.0, 1.5, 0.0]))]
+        if kind == 'setfield':
+            return ['edit', j, kind, cvals()]
+        return ['edit', j, kind, dyadic(rng, 0.25, 8, 2)]
+
+    def integ(j):
+        return ['int', j, dyadic(rng, 0.25, 4, 2), float(rng.choice([1.0, 1.0, 0.5, 2.0, -1.0]))]
+
+    def some(n):
+        out = []
+        for _ in range(n):
+            j = int(rng.integers(0, nwf))
+            u = rng.random()
+            out.append(integ(j) if u < 0.4 else (['peek', j] if u < 0.5 else (edit(j) if u < 0.85 else ['read'])))
+        return out
+    j = int(rng.integers(0, nwf))
+    core = [integ(j) if rng.random() < 0.7 else ['peek', j]]
+    if rng.random() < 0.25:
+        core.append(['read'])
+    core += [edit(j) for _ in range(int(rng.integers(1, 3)))] + [integ(j)]
+    case['ops'] = some(int(rng.integers(0, 3))) + core + some(int(rng.integers(0, 4))) + [['read'], ['read']]
+    return case
+
+
+def run_reint(case):
+    """returns (bad, model lines, comparisons [(index of the model's read line, real image)], counters)"""
+    import hcipy
+    bad, lines, cmps, cnt = [], [], [], []
+    dims = case['dims']
+    npix = int(np.prod(dims))
+    grid = hcipy.make_uniform_grid(dims, [d * n for d, n in zip(case['delta'], dims)])
+
+    def mkdet(cls):
+        if cls == 'noiseless':
+            return hcipy.NoiselessDetector(grid, sub_arg(case))
+        np.random.seed(12345)
+        return hcipy.NoisyDetector(grid, dark_current_rate=0, read_noise=0, flat_field=0, include_photon_noise=False, subsampling=sub_arg(case))
+    try:
+        dets = [mkdet(case['cls'])] + ([mkdet('noisy-off' if case['cls'] == 'noiseless' else 'noiseless')] if case['twin'] else [])
+    except Exception as e:  # noqa
+        return [('constructor-raises', 'constructing the %s detector raised %s' % (case['cls'], type(e).__name__))], lines, cmps, cnt
+    det = dets[0]
+    nin = det.input_grid.size
+    rd = '[' + ','.join(str(d) for d in dims[::-1]) + ']'
+
+    def cfield(e, g, c64):
+        return hcipy.Field((np.array(e[0]) + 1j * np.array(e[1])).astype(np.complex64 if c64 else np.complex128), g)
+    wfs, bufs, state = [], [], []
+    own = [w['own'] for w in case['wfs']]
+    try:
+        for w in case['wfs']:
+            g = det.input_grid.copy() if w['grid'] == 'copy' else det.input_grid
+            if w['own']:
+                buf = cfield(w['e'], g, w['c64'])          # the wavefront wraps this array without copying it
+            else:
+                buf = hcipy.Field(np.array(w['e'][0], dtype=np.float32 if w['c64'] else float), g)     # real amplitude: the wavefront holds a complex copy
+            wfs.append(hcipy.Wavefront(buf))
+            bufs.append(buf)
+            state.append({'evaluated': False, 'stale': None})
+    except Exception as e:  # noqa
+        return [('wavefront-raises', 'constructing a Wavefront raised %s: %s' % (type(e).__name__, str(e)[:100]))], lines, cmps, cnt
+
+    def power_now(wf):
+        """|E|^2 * weights of the CURRENT contents, exact; independent of wf.power"""
+        e = np.array(wf.electric_field).ravel()
+        w = np.asarray(wf.electric_field.grid.weights, dtype=float) + np.zeros(e.size)
+        if e.size != nin:
+            raise MachineryError('wavefront of %d samples on an input grid of %d' % (e.size, nin))
+        return [(fr(z.real) ** 2 + fr(z.imag) ** 2) * fr(x) for z, x in zip(e, w)]
+    def contents(wf):
+        e = np.array(wf.electric_field).ravel()
+        w = np.asarray(wf.electric_field.grid.weights, dtype=float) + np.zeros(e.size)
+        return rat_list([float(z.real) for z in e]), rat_list([float(z.imag) for z in e]), rat_list([float(x) for x in w])
+    # the model is given the CONTENTS of the wavefront objects (ops wcreate / wfield / wweights) and computes |E|^2 * weights itself (`Wf.power`)
+    lines.append('C17 new noiseless %s %s' % (model_sub(case), rd))
+    for wf in wfs:
+        lines.append('C17 wcreate %s %s %s' % contents(wf))
+    pending = []      # (power (Fractions), dt, w, label of the edit the wavefront went through since its power was last evaluated)
+    for k, op in enumerate(case['ops']):
+        try:
+            if op[0] == 'read':
+                want = [Fraction(0)] * npix
+                for pw, dt, w, _ in pending:
+                    b = brute_bins(pw, dims, factors(case))
+                    want = [a + x * fr(dt) * fr(w) for a, x in zip(want, b)]
+                stale = [lab for _, _, _, lab in pending if lab]
+                for di, d in enumerate(dets):
+                    im = d.read_out()
+                    arr = np.asarray(im, dtype=float)
+                    gr = getattr(im, 'grid', None)
+                    name = type(d).__name__
+                    if arr.shape != (npix,):
+                        bad.append(('readout-shape', 'read-out %d of the %s has shape %r, expected (%d,)' % (k, name, arr.shape, npix)))
+                    elif gr is None or not on_det_grid(gr, grid):
+                        bad.append(('readout-grid', 'read-out %d of the %s does not live on the detector grid' % (k, name)))
+                    else:
+                        scale = max([1.0] + [abs(float(x)) for x in want])
+                        err = max([abs(float(a) - float(b)) for a, b in zip(arr, want)] + [0.0])
+                        if not err <= TOL * scale:
+                            if stale:
+                                bad.append(('reintegrated-wavefront-after-in-place-edit',
+                                            'read-out %d of the %s differs by %g from sum(|E|^2 * grid.weights * dt * weight) of what the wavefronts held when they were '
+                                            'integrated; %d of the %d integrations were of a Wavefront object whose power had been evaluated before and that was then '
+                                            'edited in place (%s)' % (k, name, err, len(stale), len(pending), ', '.join(sorted(set(stale))))))
+                            else:
+                                bad.append(('readout-value', 'read-out %d of the %s differs by %g from sum(|E|^2 * grid.weights * dt * weight) of the integrated wavefronts'
+                                            % (k, name, err)))
+                    if bad:
+                        break
+                    if di == 0:
+                        lines.append('C17 wread')
+                        cmps.append((len(lines) - 1, [float(x) for x in arr]))
+                if bad:
+                    break
+                pending = []
+            elif op[0] == 'peek':
+                float(wfs[op[1]].total_power)
+                state[op[1]] = {'evaluated': True, 'stale': None}
+            elif op[0] == 'int':
+                j = op[1]
+                pw = power_now(wfs[j])
+                for d in dets:
+                    d.integrate(wfs[j], op[2], op[3])
+                pending.append((pw, op[2], op[3], state[j]['stale']))
+                lines.append('C17 wint %d %s %s' % (j, rat(op[2]), rat(op[3])))
+                cnt.append('reint:integrate:' + ('same-object-after-' + state[j]['stale'] if state[j]['stale']
+                                                 else ('same-object-unchanged' if state[j]['evaluated'] else 'first-use')))
+                state[j] = {'evaluated': True, 'stale': None}
+            else:
+                j, kind = op[1], op[2]
+                wf = wfs[j]
+                if kind == 'item':
+                    wf.electric_field[np.array(op[3])] = np.array(op[4][0]) + 1j * np.array(op[4][1])
+                elif kind == 'mask':
+                    m = np.zeros(nin, dtype=bool)
+                    m[np.array(op[3])] = True
+                    wf.electric_field[m] = 0
+                elif kind == 'imag':
+                    wf.electric_field.imag = np.array(op[3])
+                elif kind == 'real':
+                    wf.electric_field.real[:] = np.array(op[3])
+                elif kind == 'slice':
+                    wf.electric_field[op[3]:] = complex(op[4][0], op[4][1])
+                elif kind == 'buffer':
+                    if own[j]:
+                        bufs[j][np.array(op[3])] = np.array(op[4][0]) + 1j * np.array(op[4][1])
+                    else:
+                        bufs[j][np.array(op[3])] = np.array(op[4][0])      # the caller's real array: the wavefront has its own copy
+                elif kind == 'weights':
+                    wf.grid.weights = np.array(op[3], dtype=float)
+                elif kind == 'setgrid':
+                    g2 = det.input_grid.copy()
+                    g2.weights = np.array(op[3], dtype=float)
+                    wf.electric_field.grid = g2
+                elif kind == 'imul':
+                    wf.electric_field *= op[3]
+                elif kind == 'setfield':
+                    wf.electric_field = cfield(op[3], wf.grid, case['wfs'][j]['c64'])
+                    bufs[j] = wf.electric_field
+                    own[j] = True
+                else:
+                    if sum(power_now(wf)) > 0:
+                        wf.total_power = op[3]
+                        state[j]['evaluated'] = True
+                    else:
+                        kind = 'total_power(skipped: dark wavefront)'
+                re_, im_, wt_ = contents(wf)
+                lines.append('C17 wfield %d %s %s' % (j, re_, im_))
+                lines.append('C17 wweights %d %s' % (j, wt_))
+                cnt.append('reint:edit:' + kind)
+                if kind in IN_PLACE_EDITS and state[j]['evaluated']:
+                    state[j]['stale'] = kind if not state[j]['stale'] else state[j]['stale']
+                elif kind in ('imul', 'setfield', 'total_power') and state[j]['stale']:
+                    pass        # an in-place edit is still not seen by anything but a recomputation
+        except MachineryError:
+            raise
+        except Exception as e:  # noqa
+            bad.append(('reint-raises', 'operation %d %r on a re-used wavefront raised %s: %s' % (k, op[:3], type(e).__name__, str(e)[:100])))
+            break
+    return bad, lines, cmps, cnt
 
 
 def all_bad(obs):
@@ -1398,7 +1659,30 @@ def run(ctx):
         if not bad:
             pol.append((case, len(lines), cmps))
             lines += plines
+    ri = []
+    for k in range(ctx.scale(250, 3000)):
+        case = gen_reint(ctx.rng, big=False)
+        bad, plines, cmps, cnt = run_reint(case)
+        for key, what in bad:
+            ctx.violation(key, what, case)
+        for c_ in cnt:
+            ctx.count(c_)
+        ctx.count('reint:' + case['cls'] + ('+twin' if case['twin'] else ''))
+        ctx.count('reint:wavefront-objects:%d' % len(case['wfs']))
+        ctx.case(None, nontrivial_key=('reint', tuple(case['dims']), tuple(factors(case)), case['cls'], tuple(tuple(op[:3]) if op[0] == 'edit' else op[0] for op in case['ops'])))
+        if not bad:
+            ri.append((case, len(lines), cmps))
+            lines += plines
     out = ctx.model(lines)
+    for case, base, cmps in ri:
+        for idx, got in cmps:
+            ctx.traces_validated += 1
+            resp = out[base + idx]
+            m = parse_rat_list(resp[3:]) if resp.startswith('ok [') else None
+            if m is None or not close_lists(m, got):
+                ctx.disagree('C17 reint read', {'case': case, 'model': resp, 'impl': got})
+                break
+            ctx.count('reint:readouts-compared-with-model-wread')
     for case, base, cmps in pol:
         for idx, got in cmps:
             ctx.traces_validated += 1
@@ -1445,6 +1729,11 @@ def run(ctx):
 
 
 def replay(ctx, case):
+    if case.get('fam') == 'reint':
+        bad = run_reint(case)[0]
+        for key, what in bad:
+            print('  fails:', key, '-', what)
+        return not bad
     if case.get('fam') == 'polar':
         bad = run_polar(case)[0]
         for key, what in bad:
